@@ -322,6 +322,21 @@ func init() {
 			var wit []storageWitness
 			if frame {
 				collectStorage(reflect.ValueOf(a), &wit, 0)
+				// a path that goes INTO a slice of uint8 (reflection cannot tell []uint8 from []byte) addresses one of its
+				// elements: writing that element in place is the operation itself, not a write into foreign storage
+				for k := 0; k < len(path); k++ {
+					if el, ok := NavNative(reflect.ValueOf(a), path[:k]); ok && el.Kind() == reflect.Slice &&
+						el.Type().Elem().Kind() == reflect.Uint8 && el.Cap() > 0 {
+						base := el.Slice(0, el.Cap()).Pointer()
+						kept := wit[:0]
+						for _, w := range wit {
+							if uintptr(unsafe.Pointer(unsafe.SliceData(w.view))) != base {
+								kept = append(kept, w)
+							}
+						}
+						wit = kept
+					}
+				}
 			}
 			err := callSet(ins, a, path, buffered, src)
 			after := reflect.ValueOf(a)
